@@ -527,4 +527,52 @@ def fsTrace {α : Type} (chunks : List (List α)) (ok : Bool) : List (FsStep α)
   FsStep.createTemp :: (chunks.map FsStep.write ++
     (if ok then [FsStep.rename, FsStep.chtimes] else [FsStep.cleanup]))
 
+/-! ## Failing file-system calls and several writers (fifth deepening)
+
+`refreshFromURL` with a disk that does not cooperate, and several `refreshFromURL` calls for the
+same cache path at the same time (the periodic refresh worker and a refresh asked for through the
+debug API are not serialised): every call has a temporary file of its own (`renameio.TempFile`
+opens it with `O_EXCL` under a random name). -/
+
+/-- What the file system does to one `refreshFromURL` call. -/
+inductive FsFault where
+  | none
+  /-- `renameio.TempFile` fails: the call returns before anything is created. -/
+  | createFails
+  /-- The `i`-th `Write` stores only its first `j` bytes and fails (full disk, quota, `EFBIG`):
+  `io.Copy` returns the error, the deferred `Cleanup` removes the temporary file. -/
+  | writeFails (i j : Nat)
+  /-- `Sync`, `Close` or `rename(2)` inside `CloseAtomicallyReplace` fails:
+  `withDeferredTmpCleanup` returns the error; no `Cleanup` follows. -/
+  | replaceFails
+  /-- `os.Chtimes` after the rename fails. -/
+  | chtimesFails
+
+/-- The file-system trace of one `refreshFromURL` call under a file-system fault. -/
+def fsTraceF {α : Type} (chunks : List (List α)) (ok : Bool) : FsFault → List (FsStep α)
+  | .none => fsTrace chunks ok
+  | .createFails => []
+  | .writeFails i j =>
+    FsStep.createTemp :: ((chunks.take i).map FsStep.write ++
+      [FsStep.write ((chunks.getD i []).take j), FsStep.cleanup])
+  | .replaceFails =>
+    FsStep.createTemp :: (chunks.map FsStep.write ++ (if ok then [] else [FsStep.cleanup]))
+  | .chtimesFails => fsTrace chunks ok
+
+/-- One cache path, one temporary file per writer. -/
+structure MFs (α : Type) where
+  path : Option (List α)
+  tmp : Nat → Option (List α)
+
+/-- Writer `s.1` performs the step `s.2`: it sees the cache path and its own temporary file. -/
+def mfsStep {α : Type} (fs : MFs α) (s : Nat × FsStep α) : MFs α :=
+  { path := (fsStep ⟨fs.path, fs.tmp s.1⟩ s.2).path
+    tmp := fun w => if w = s.1 then (fsStep ⟨fs.path, fs.tmp s.1⟩ s.2).tmp else fs.tmp w }
+
+def mfsExec {α : Type} (fs : MFs α) (tr : List (Nat × FsStep α)) : MFs α := tr.foldl mfsStep fs
+
+/-- The steps of writer `w` within a schedule. -/
+def proj {α : Type} (w : Nat) (tr : List (Nat × FsStep α)) : List (FsStep α) :=
+  (tr.filter (fun s => s.1 == w)).map (fun s => s.2)
+
 end Agd.Refresh
